@@ -31,12 +31,17 @@ RULE = ('datasets of every convention with explicitly stored geometry (CF 1-D st
         'variables x clip geometries (boxes, lines, points, cells, and selections built from a chosen set of cells: random '
         'subsets, everything but a connected blob, two cells, every other cell — concave, with holes, in several pieces) x '
         'buffer 0..2 x history of the mask object (applied once; applied twice; applied, then applied to a second dataset of '
-        'the same geometry; applied, saved, reopened, applied). For meshes the surviving nodes / edges are the corners / sides '
+        'the same geometry; applied, saved, reopened, applied). Also closed meshes (gen/c09_extra.closed_mesh: rings of nodes '
+        'between two caps — pole or face — and tori: bipyramids, tetrahedron, prisms, cube, banded globes; no boundary, so '
+        'edge_face / face_face have no missing entry) whose complete tables are plain integer variables without any '
+        '_FillValue (recipe key enc.plain_complete_tables), x the sets of optional tables with edge_face / face_face: the clip '
+        'creates the first missing entries. For meshes the surviving nodes / edges are the corners / sides '
         'of the kept faces (model `referencedBy`, generator tables), compared with the mask and with the sizes of the result. '
         'Checked on the clipped dataset: same convention detected, saved with '
         'ems.to_netcdf and reopened as the same convention, polygon of every selected cell unchanged and no new polygon, every '
         'connectivity table present, equal to the model\'s update_connectivity of the generator\'s tables, mutually consistent, '
-        'start_index and integer type kept. select_variables over subsets of data variables: identical polygons. '
+        'start_index and integer type kept, every entry that is not missing the new number of a surviving element, the '
+        'saved and reopened table equal to the one in memory. select_variables over subsets of data variables: identical polygons. '
         'Non-trivial: some but not all cells kept; distinct by (recipe, geometry, buffer, history).')
 TRUSTED = ['netCDF4 / xarray save and reopen (runtime, compared not modelled)', 'the clip mask (C07) is taken as given']
 ASSUMPTIONS = ['"can be saved and reopened as such" is runtime behaviour checked by the correspondence only']
@@ -135,7 +140,7 @@ def apply_history(c, mask, history, recipe):
         r2 = copy.deepcopy(recipe)
         for v in r2.get('vars', []):
             v['base'] = v['base'] + 7
-        return do_clip(c, mask, second=G.bind(G.build(r2)))
+        return do_clip(c, mask, second=G.bind(X.build(r2)))
     with CG.WorkDir() as wd:
         p = os.path.join(wd, 'mask.nc')
         mask.to_netcdf(p)
@@ -191,6 +196,7 @@ def check_case(ctx, recipe, built, c, geom_kind, geom, buffer, items, history='o
             out.ems.to_netcdf(p)
             with xr.open_dataset(p) as re:
                 re = re.load()
+            reopened = re
             cls2 = emsarray.conventions.get_dataset_convention(re)
             if cls2 is not built.conv_class:
                 ctx.oracle_fail('reopened-convention-changed', desc, f'reopened clipped dataset detected as {cls2}')
@@ -328,6 +334,21 @@ def check_case(ctx, recipe, built, c, geom_kind, geom, buffer, items, history='o
             got = table_rows(out, vn, pdim)
             tabs[key] = got
             items.append((line, rows_str(got), {**desc, 'op': line, 'table': key}))
+            # "refers only to surviving elements under the new numbering": every entry that is not missing is the new
+            # number of a surviving element, whether or not the input table had (or declared) missing entries
+            ncol = int(np.asarray(keepcol).sum())
+            bad = [(r, v) for r, row in enumerate(got) for v in row if v is not None and not 0 <= v < ncol]
+            if bad:
+                ctx.oracle_fail('clipped-table-refers-to-non-survivor', {**desc, 'table': key},
+                                f'{vn} row {bad[0][0]} names {colk} {bad[0][1]} (zero-based), {ncol} {colk}s survive the clip')
+            # "can be saved and reopened as such": the saved table says the same as the one in memory
+            if vn not in reopened.variables:
+                ctx.oracle_fail('reopened-table-missing', {**desc, 'table': key}, f'{vn} is absent from the reopened clipped dataset')
+            else:
+                again = table_rows(reopened, vn, pdim)
+                if again != got:
+                    ctx.oracle_fail('reopened-table-differs', {**desc, 'table': key},
+                                    f'{vn} after save / reopen {rows_str(again)}, in the clipped dataset {rows_str(got)}')
             # base and type
             si_in = built.ds[vn].attrs.get('start_index', None)
             si_out = out[vn].attrs.get('start_index', None)
@@ -395,7 +416,7 @@ def make_recipe(ctx, k):
 
 def examine(ctx, recipe, items, n_random=2, n_selection=1) -> None:
     rng = ctx.rng
-    built = G.build(recipe)
+    built = X.build(recipe)
     c = G.bind(built)
     raw = built.polys
     vbits = S.geos_valid_bits(raw)
@@ -440,6 +461,13 @@ def run(ctx) -> None:
                                  vary=True)
         recipe = G.attach_vars(rng, recipe, n_vars=2, max_extra=1, dtypes=('f8', 'i4'))
         ctx.guarded(lambda: examine(ctx, recipe, items, n_random=0, n_selection=4), {'recipe': recipe})
+    # closed meshes (globes, tori, polyhedra: no boundary, so edge_face / face_face have no missing entry) whose complete
+    # tables are plain integer variables without a `_FillValue`: the clip creates the first missing entries
+    for k in range(ctx.budget(16, 80)):
+        recipe = X.closed_recipe(rng, ctx.tier, k)
+        recipe = G.attach_vars(rng, recipe, n_vars=2, max_extra=1, dtypes=('f8', 'i4'))
+        ctx.count('closed-mesh')
+        ctx.guarded(lambda: examine(ctx, recipe, items, n_random=1, n_selection=2), {'recipe': recipe})
     if ctx.searching and ctx.driver is None:
         ctx.evaluated(len(items))
         return
@@ -452,7 +480,7 @@ def run_one(ctx, inp):
     if inp.get('op') and ctx.driver:
         out['model'] = ctx.model([inp['op']])[0]
     if 'geometry' in inp:
-        built = G.build(inp['recipe'])
+        built = X.build(inp['recipe'])
         c = G.bind(built)
         items: list = []
         sub = type(ctx)(ctx.prop, ctx.tier, ctx.seed)
